@@ -449,6 +449,14 @@ func genC10(rng *hx.Rng, tier string, w *hx.Writer) error {
 		}
 		w.Put(hx.Case{Entry: "bn", Op: 22, Args: hx.L(hx.Z(k)), Impl: hx.B(got), Oracle: oracle, Tags: []string{"gt-exp", "nt"}})
 	}
+	// programs over point objects with histories (harness/props/pointmachine.go)
+	nProg := 60
+	if tier == "thorough" {
+		nProg = 1500
+	}
+	genPointMachine(rng, w, Bn.G1(), GrpG1, "G1", q, nProg, "group-law-wrong", 8)
+	genPointMachine(rng, w, Bn.G2(), GrpG2, "G2", q, nProg, "group-law-wrong", 9)
+	genPointMachine(rng, w, Bn.GT(), -1, "GT", q, nProg/6, "group-law-wrong", 0)
 	// group elements are values: a copy (Clone) keeps its value when the original is updated in place,
 	// and the identity stays the identity after a point obtained from Null() has been used as an
 	// accumulator - in G1, G2 and GT
